@@ -282,7 +282,7 @@ def run_inv(ctx, i):
     nreg = [o for o in objs if o.regularization is not None]
     if i % 5 == 2 and len(nreg) >= 2:
         # one regularization instance shared by several linear objects (the natural way to give two mappers "the same" scheme)
-        shared = aa.reg.Constant(coefficient=float(rng.uniform(0.1, 2.0)))
+        shared = aa.reg.Constant(coefficient=float(rng.uniform(0.1, 2.0)) / units)      # in the flux units of this fit
         for o, d in zip(objs, desc):
             if o.regularization is not None:
                 o.regularization = shared
